@@ -15,21 +15,24 @@ Section CtlProofs.
   Notation compute_step := (compute_step prm lamb res0 pi_out passed).
 
   (* the exact controller accepts only an iterate whose implicit-Euler residual norm is <= newton_tol,
-     then halves lambda; otherwise it doubles lambda *)
+     then halves lambda; otherwise it doubles lambda — or, when a deadline test inside its loop finds the deadline
+     passed, abandons the trial: unchanged iterate (id 0), unchanged lambda, not accepted *)
   Lemma exact_loop_spec fuel : forall k curr last stream id l a,
     exact_loop fuel k curr last stream = CAns id l a ->
     (a = true /\ l == (1 # 2) * lamb /\ exists s, In s stream /\ ns_id s = id /\ ns_res s <= cp_newton_tol prm)
-    \/ (a = false /\ l == 2 * lamb).
+    \/ (a = false /\ l == 2 * lamb)
+    \/ (a = false /\ l == lamb /\ id = 0%nat /\ exists j, passed j = true).
   Proof.
     induction fuel as [|f IH]; intros k curr last stream id l a H; cbn in H.
-    - destruct last; inversion H; subst. right. split; reflexivity.
+    - destruct last; inversion H; subst. right. left. split; reflexivity.
     - destruct stream as [|s stream]; [discriminate|].
-      destruct (passed k); [discriminate|].
+      destruct (passed k) eqn:EP.
+      { inversion H; subst. right. right. split; [reflexivity|]. split; [reflexivity|]. split; [reflexivity|]. exists k. exact EP. }
       destruct (qle (ns_res s) (cp_newton_tol prm)) eqn:E.
       + inversion H; subst. left. split; [reflexivity|]. split; [reflexivity|].
         exists s. split; [left; reflexivity|]. split; [reflexivity|]. apply qle_iff. exact E.
       + destruct (qlt ((1 # 2) * curr) (ns_res s)).
-        * inversion H; subst. right. split; reflexivity.
+        * inversion H; subst. right. left. split; reflexivity.
         * destruct (IH _ _ _ _ _ _ _ H) as [(A & B & s' & C & D)|R]; [left|right; exact R].
           split; [exact A|]. split; [exact B|]. exists s'. split; [right; exact C|exact D].
   Qed.
@@ -38,27 +41,39 @@ Section CtlProofs.
     ctl_step CExact stream = CAns id l true ->
     l == (1 # 2) * lamb /\ exists s, In s stream /\ ns_id s = id /\ ns_res s <= cp_newton_tol prm.
   Proof.
-    intros H. destruct (exact_loop_spec _ _ _ _ _ _ _ _ H) as [(_ & B & C)|(A & _)]; [auto|discriminate].
+    intros H. destruct (exact_loop_spec _ _ _ _ _ _ _ _ H) as [(_ & B & C)|[(A & _)|(A & _)]]; [auto|discriminate|discriminate].
   Qed.
 
-  (* an answer that is not accepted has a strictly larger lambda, for every controller
-     (ratio controllers: precondition lamb_inc > 1) *)
+  (* an answer that is not accepted has a strictly larger lambda, for every controller (ratio controllers:
+     precondition lamb_inc > 1) — except the exact controller's abandoned trial (deadline passed inside its loop),
+     which leaves iterate and lambda as they are *)
   Theorem rejected_increases_lambda k stream id l :
     1 < cp_lamb_inc prm ->
-    ctl_step k stream = CAns id l false -> lamb < l.
+    ctl_step k stream = CAns id l false ->
+    lamb < l \/ (k = CExact /\ id = 0%nat /\ l == lamb /\ exists j, passed j = true).
   Proof.
     intros Hinc H. destruct k; unfold StepCtl.ctl_step in H.
-    - destruct (exact_loop_spec _ _ _ _ _ _ _ _ H) as [(A & _)|(_ & B)]; [discriminate|]. rewrite B. lra.
+    - destruct (exact_loop_spec _ _ _ _ _ _ _ _ H) as [(A & _)|[(_ & B)|(_ & B & C & D)]]; [discriminate| |].
+      + left. rewrite B. lra.
+      + right. auto.
     - destruct stream; inversion H.
-    - destruct stream as [|mid rest]; [discriminate|].
+    - left. destruct stream as [|mid rest]; [discriminate|].
       destruct (qle (ns_res mid) (cp_newton_tol prm)); [inversion H|].
       destruct (qeqb (ns_diff mid) 0); [inversion H|].
       destruct rest as [|fin rest]; [discriminate|].
       destruct (qeqb (ns_diff fin) 0); [inversion H|].
       destruct (qle (ns_diff fin / ns_diff mid) (cp_theta_max prm)); inversion H; subst. nra.
-    - destruct stream as [|mid rest]; [discriminate|].
+    - left. destruct stream as [|mid rest]; [discriminate|].
       destruct (qle (ns_res mid) (cp_newton_tol prm)); [inversion H|].
       destruct (qle (ns_res mid / res0) (cp_theta_max prm)); inversion H; subst. nra.
+  Qed.
+  (* with no deadline passed the step always shrinks *)
+  Corollary rejected_increases_lambda_no_deadline k stream id l :
+    1 < cp_lamb_inc prm -> (forall j, passed j = false) ->
+    ctl_step k stream = CAns id l false -> lamb < l.
+  Proof.
+    intros Hinc Hp H. destruct (rejected_increases_lambda k stream id l Hinc H) as [A|(_ & _ & _ & j & Hj)]; [exact A|].
+    rewrite Hp in Hj. discriminate.
   Qed.
 
   (* lambda stays positive (positive lamb_min, lamb_init, lamb_red, lamb_inc and PI output) *)
@@ -67,7 +82,7 @@ Section CtlProofs.
     ctl_step k stream = CAns id l a -> 0 < l.
   Proof.
     intros Hmin Hinit Hinc H. destruct k; unfold StepCtl.ctl_step in H.
-    - destruct (exact_loop_spec _ _ _ _ _ _ _ _ H) as [(_ & B & _)|(_ & B)]; rewrite B; lra.
+    - destruct (exact_loop_spec _ _ _ _ _ _ _ _ H) as [(_ & B & _)|[(_ & B)|(_ & B & _)]]; rewrite B; lra.
     - destruct stream; inversion H; subst. exact Hinit.
     - destruct stream as [|mid rest]; [discriminate|].
       destruct (qle (ns_res mid) (cp_newton_tol prm)).
@@ -90,21 +105,10 @@ Section CtlProofs.
   Theorem fixed_spec s stream : ctl_step CFixed (s :: stream) = CAns (ns_id s) (cp_lamb_init prm) true.
   Proof. reflexivity. Qed.
 
-  (* a deadline found passed inside the exact controller's loop abandons the trial: no iterate of the
-     stream is returned, compute_step answers (unchanged iterate, 2 lambda, not accepted) *)
-  Lemma exact_loop_abandons fuel : forall k curr last stream,
-    exact_loop fuel k curr last stream = CRaise -> exists j, passed j = true.
-  Proof.
-    induction fuel as [|f IH]; intros k curr last stream H; cbn in H.
-    - destruct last; discriminate.
-    - destruct stream as [|s stream]; [discriminate|].
-      destruct (passed k) eqn:E; [exists k; exact E|].
-      destruct (qle (ns_res s) (cp_newton_tol prm)); [discriminate|].
-      destruct (qlt ((1 # 2) * curr) (ns_res s)); [discriminate|]. eapply IH; eauto.
-  Qed.
-
+  (* a deadline found passed inside the exact controller's loop abandons the trial: no iterate of the stream is
+     returned, the answer is (unchanged iterate, unchanged lambda, not accepted), through compute_step too *)
   Theorem first_check_passed_abandons s stream eval_ok : passed 0%nat = true ->
-    compute_step CExact (s :: stream) eval_ok = CAns 0 (2 * lamb) false.
+    compute_step CExact (s :: stream) eval_ok = CAns 0 lamb false.
   Proof. intros H. unfold StepCtl.compute_step. cbn. rewrite H. reflexivity. Qed.
 
   (* compute_step: a point whose evaluation fails is never accepted, and whatever is not accepted because of a
